@@ -672,3 +672,50 @@ Fixpoint trace_full (s : state) (sched : list action) : list (list N) :=
 (* run process i until it has completed its current operation (bounded) *)
 Fixpoint steps_of (i : nat) (n : nat) : list action :=
   match n with O => [] | S n' => Step i :: steps_of i n' end.
+
+(* ------------------------------------------------------------------ vocabulary of the property statements *)
+Definition wf_procs (procs : list proc) : Prop :=
+  forall pr, In pr procs -> exists q a ops, pr = mk_proc q a ops.
+
+(* repo.json as last written (what a reader sees once the writer has left its `with` block) *)
+Definition pkgs (s : state) : list (N * N) := match st_repo s with Some l => l | None => [] end.
+
+(* installers between their rename and their repo.json update *)
+Definition pend (pc : pcT) : bool :=
+  match pc with IOpenRepo | ICreateRepo | ILockRepo => true | _ => false end.
+
+(* control points of gc between reading repo.json and leaving the collection loop *)
+Definition gphase (pc : pcT) : bool :=
+  match pc with GScan | GScanLock | GScanUnlock | GMove => true | _ => false end.
+
+(* the next step of process g moves package q from the store into its attic *)
+Definition collects (s : state) (g : nat) (q : N) : Prop :=
+  exists pr c rest, nth_error (st_procs s) g = Some pr /\ p_pc pr = GMove /\ p_queue pr = c :: rest /\
+                    c_id c = q /\ g_dry pr = false.
+
+(* ... and that gc was not asked to remove used packages (no --used) *)
+Definition not_forced (s : state) (g : nat) : Prop :=
+  exists pr, nth_error (st_procs s) g = Some pr /\ g_used pr = false.
+
+(* workspace w is recorded in pkg.json of the installed package q *)
+Definition recorded (s : state) (q w : N) : Prop :=
+  exists d m, lookup q (st_store s) = Some d /\ d_meta d = Some m /\ In w (m_users m).
+
+(* workspace w uses q: its symlink points to q, or the share API has just
+   handed q to its project, whose builder is about to create the link *)
+Definition uses (s : state) (w q : N) : Prop :=
+  lookup w (st_links s) = Some q \/
+  exists j pr, nth_error (st_procs s) j = Some pr /\ o_ws (cur pr) = w /\ o_pkg (cur pr) = q /\
+               (p_pc pr = UUnlink \/ p_pc pr = ULink \/ (p_pc pr = IFinish /\ o_link (cur pr) = true)).
+
+(* the next step of gc process g takes the shared lock on q's pkg.json (it
+   holds the repository lock exclusively) and decides whether q is unused *)
+Definition scans (s : state) (g : nat) (q : N) : Prop :=
+  exists pr sz rest, nth_error (st_procs s) g = Some pr /\ p_pc pr = GScanLock /\ p_todo pr = (q, sz) :: rest /\
+                     pkg_free_s s q = true.
+
+Definition ops_left (s : state) (g : nat) : nat :=
+  match nth_error (st_procs s) g with Some pr => length (p_ops pr) | None => O end.
+
+Definition count_log (e : bool * N) (l : list (bool * N)) : nat :=
+  length (filter (fun x => Bool.eqb (fst x) (fst e) && (snd x =? snd e)) l).
